@@ -17,19 +17,19 @@ const repoModule = "github.com/256dpi/lungo"
 
 // SpecModule is one file of /verif/specs.
 type SpecModule struct {
-	Name   string
-	Forms  []*SpecForm
-	Needs  []string // other modules (";; needs: a b")
+	Name  string
+	Forms []*SpecForm
+	Needs []string // other modules (";; needs: a b")
 }
 
 type SpecForm struct {
-	Text    string
-	Defines string // symbol defined/declared ("" for assert)
-	Syms    map[string]bool
-	Axiom   bool
-	Ret     string   // return sort for functions
-	Args    []string // argument sorts
-	Uninterp bool    // declare-fun / declare-const
+	Text     string
+	Defines  string // symbol defined/declared ("" for assert)
+	Syms     map[string]bool
+	Axiom    bool
+	Ret      string   // return sort for functions
+	Args     []string // argument sorts
+	Uninterp bool     // declare-fun / declare-const
 }
 
 type World struct {
